@@ -1,7 +1,7 @@
 #!/bin/bash
 # usage: with_patch.sh <patch> <python-script>   -> runs the script with REPO_SCRATCH pointing at a patched scratch copy of /repo
-S=$(mktemp -d /tmp/vdbg.XXXX); rsync -a --exclude target --exclude .git /repo/ $S/repo/
-(cd $S/repo && patch -p1 -s < "$(realpath $1)") || { rm -rf $S; exit 3; }
+P=$(realpath "$1"); S=$(mktemp -d /tmp/vdbg.XXXX); rsync -a --exclude target --exclude .git /repo/ $S/repo/
+(cd $S/repo && patch -p1 -s < "$P") || { rm -rf $S; exit 3; }
 REPO_SCRATCH=$S/repo python3 "$2"
 key=$(python3 -c "import hashlib,sys;print(hashlib.sha256(sys.argv[1].encode()).hexdigest()[:8])" "$S/repo")
 rm -rf "$(dirname "$0")"/../.cache/target-*-$key "$(dirname "$0")"/../.cache/export-*-$key.lock $S
